@@ -2,13 +2,22 @@
   Executable model of the configuration code of hledger-lsp (property C19).
 
   Go code transcribed (internal/server):
-    settings.go  featureSettings … serverSettings, defaultServerSettings, normalizeServerSettings,
-                 setSettings, getSettings, refreshConfiguration, DidChangeConfiguration,
-                 parseSettingsFromRaw, applySettingsMap, toInt, toInt64, toBool, toString
+    settings.go  featureSettings … serverSettings, defaultServerSettings, maxIndentSize,
+                 maxMinAlignmentColumn, normalizeServerSettings, setSettings, getSettings,
+                 nextRefresh, isNewestRefresh, applyConfiguration, refreshConfiguration,
+                 DidChangeConfiguration, parseSettingsFromRaw, applySettingsMap, toInt, toInt64,
+                 toBool, toString
     server.go    NewServer (initial settings), Initialize (initializationOptions, capability
                  gating, supportsConfiguration), Initialized (spawns a refresh),
                  shouldIncludeDiagnostic, the places where a setting is read
-    include/loader.go  DefaultLimits, normalizeLimits (SetLimits)
+    include/loader.go  DefaultLimits, normalizeLimits, SetLimits (the cache is emptied when the
+                 limits change), the size check of loadSingleInclude on the probe's chain
+
+  The model describes the tree AFTER the `fix:` commits for the findings
+  wrapper-shadows-siblings, unbounded-width-panics, limits-skip-cached-includes,
+  refresh-out-of-order and push-ignored; the pinned behaviour is kept in the definitions
+  marked PINNED (`normalizePinned`, `parseSettingsFromRawPinned`, `SrvP`/`stepP`) for the
+  `pinned_*_counterexample` theorems of HL.Props.C19.
 
   JSON values are modelled *as the Go code sees them*: the payload has already been decoded by
   encoding/json (segmentio) into `interface{}`; every JSON number is a float64.  A float64 is
